@@ -268,7 +268,10 @@ def one_run(ctx, c, family="opt"):
                     y = x.copy(); y[i] = e
                     o, gi, hi = prob.evalfn(y)
                     cand = (totcv(gi, hi), float(numpy.sum(o)))
-                    if cand[0] < cur[0] - 1e-12 or (abs(cand[0] - cur[0]) <= 1e-12 and cand[1] < cur[1] - 1e-9 * (1 + abs(cur[1]))):
+                    # exact lexicographic comparison on the same floats the climber sees: the candidate is the returned vector with
+                    # one position replaced (the climber's own proposal order), so evaluation is bit-identical; a tolerance here
+                    # would call a 5e-17 rounding-level constraint violation "equal" and raise a false alarm
+                    if cand[0] < cur[0] or (cand[0] == cur[0] and cand[1] < cur[1]):
                         better = (i, e, cand); break
                 if better:
                     break
